@@ -97,7 +97,7 @@ def run_one(sc, root, helper, tacd_dir):
             digest = hashlib.sha256(ka.encode()).hexdigest()
             obs["expected"] = "0420" + digest
             hs = None
-            for _ in range(60):   # tacd daemonises and binds after its start hook returned
+            for _ in range(240):   # tacd daemonises and binds after its start hook returned (slow machines: up to ~12 s)
                 hs = tacdrun.handshake(listen, [tacdrun.ACME_ALPN], server_name=authz["identifier"]["value"], timeout=2.0)
                 if hs.get("ok"):
                     break
